@@ -9,6 +9,7 @@ natural ids, self loops, parallel and antiparallel edges, isolated and repeated 
 `fixed = false` the definitions before that repair — only the `…_old` theorems talk about those.
 -/
 import Dawgs.Proofs.C14Glue
+import Dawgs.Proofs.C14Heap
 namespace Dawgs.C14.Props
 open Dawgs.C14
 
@@ -260,6 +261,48 @@ theorem segment_roundtrip (s : List Seg) (hne : s ≠ []) (h64 : ∀ x ∈ s, x.
         simp only [List.length_cons] at ih ⊢
         have := ih (by simp)
         omega
+
+/-! ### Projection handles: nested projections are immutable values -/
+
+/-- NON-INTERFERENCE: whatever happens after a handle was taken — further store operations, `DeleteEdge`, any number
+of projections derived from the store, from other handles or FROM THIS HANDLE — its accumulated deletions stay what
+they were, as long as its own name is not rebound. -/
+theorem handle_noninterference (s : HState) (later : List HOp) (h : String) (hb : ∀ op ∈ later, op.binds ≠ some h) :
+    (later.foldl HState.step s).handles.lookup h = s.handles.lookup h :=
+  HState.foldl_lookup later s h hb
+
+/-- THE VIEW OF A HANDLE is a function of the store's edge set and of that handle's own accumulated deletions only:
+after ANY run, a handle bound to `(dn, de)` presents the store's graph projected by `(dn, de)` — adjacency in all three
+directions, node set, node count, edge count, and its `EachAdjacentEdge` is literally the incident-edge list. (The
+store's `DeleteEdge` tombstones do not enter: the known finding.) -/
+theorem handle_view_eq (run : List HOp) (h : String) (dn de : List Nat)
+    (hh : (HState.run run).handles.lookup h = some (dn, de)) :
+    let p : Proj := ⟨(HState.run run).ts, dn, de⟩
+    let g := (G.ofRun run).project dn de
+    (HState.run run).view h = some p ∧ Presents (Proj.adjacent true p) g ∧
+    (p.nodes.Nodup ∧ ∀ n, n ∈ p.nodes ↔ n ∈ g.nodes) ∧ p.numNodes = p.nodes.length ∧ p.numEdges = g.edges.length ∧
+    ∀ v d, p.adjacentEdges v d = g.incident v d := by
+  intro p g
+  have r := HState.ts_rel run
+  refine ⟨by simp [HState.view, hh, p], ?_, ⟨Proj.nodes_nodup r dn de, Proj.mem_nodes r dn de⟩, rfl, Proj.numEdges_spec r dn de, ?_⟩
+  · exact fun v d y => Proj.adjacent_spec r true dn de v y d (Or.inr rfl)
+  · exact fun v d => Proj.adjacentEdges_eq r dn de v d
+
+/-- CHILD = PARENT MINUS (N2, E2): deriving `c := parent.Projection(dn2, de2)` binds `c` to the parent's deletions plus
+the new ones, leaves the parent (and every other handle) as it was, and the graph `c` presents is the parent's graph
+projected once more. -/
+theorem handle_child_eq (s : HState) (c parent : String) (pn pe dn2 de2 : List Nat) (hp : s.handles.lookup parent = some (pn, pe)) :
+    let s' := s.step (.derive c parent dn2 de2)
+    s'.handles.lookup c = some (sunion pn (sofList dn2), sunion pe (sofList de2)) ∧
+    (∀ h, h ≠ c → s'.handles.lookup h = s.handles.lookup h) ∧
+    s'.ts = s.ts ∧
+    ∀ g : G, g.project (sunion pn (sofList dn2)) (sunion pe (sofList de2)) = (g.project pn pe).project dn2 de2 := by
+  intro s'
+  have hs : s' = { s with handles := hset s.handles c (sunion pn (sofList dn2), sunion pe (sofList de2)) } :=
+    HState.step_derive_some s c parent dn2 de2 (pn, pe) hp
+  refine ⟨by rw [hs]; exact lookup_hset_eq _ _ _, ?_, by rw [hs], fun g => (G.project_project g pn pe dn2 de2).symm⟩
+  intro h hne
+  exact HState.step_lookup s _ h (by simp [HOp.binds]; exact fun e => hne e.symm)
 
 /-! ### TSDFS / TSBFS / TSStatelessBFS -/
 
@@ -593,6 +636,13 @@ example : dimensions (AdjMap.build demoOps).nodes (AdjMap.build demoOps).numNode
 example : Proj.adjacentT true true ⟨tsOf [.edge 10 1 2, .edge 11 2 3] [10], [], []⟩ 1 .out = [] ∧
           Proj.adjacentT false true ⟨tsOf [.edge 10 1 2, .edge 11 2 3] [10], [], []⟩ 1 .out = [2] ∧
           (tsOf [.edge 10 1 2, .edge 11 2 3] [10]).numEdgesT true = 1 ∧ (tsOf [.edge 10 1 2, .edge 11 2 3] [10]).numEdgesT false = 2 := by decide
+-- handles: parent p = store minus node 4; child c = p minus (node 3, edge 11); the parent's value is what it was
+example :
+    let run : List HOp := [.build (.edge 10 1 2), .build (.edge 11 2 3), .build (.edge 12 3 4), .fromStore "p" [4] [],
+                           .derive "c" "p" [3] [11], .build (.edge 13 1 3)]
+    (HState.run run).handles.lookup "p" = some ([4], []) ∧ (HState.run run).handles.lookup "c" = some ([3, 4], [11]) ∧
+    ((HState.run run).view "p").map (·.nodes) = some [1, 2, 3] ∧ ((HState.run run).view "c").map (·.nodes) = some [1, 2] ∧
+    ((HState.run run).view "p").map (fun p => Proj.adjacent true p 1 .out) = some [2, 3] := by decide
 -- `IsDist` is not vacuous: 5 is at distance 2 from 7, and not at distance 1
 example : (5 ∈ walkEnds (fun v => (G.ofOps demoOps).adj v .out) 7 2) ∧ ¬ (5 ∈ walkEnds (fun v => (G.ofOps demoOps).adj v .out) 7 1) := by decide
 
